@@ -51,6 +51,11 @@ type regSys struct {
 	ctx       context.Context
 	extraKey  func() string
 	postCheck func(s *regSys, op Op, out Outcome) // property-specific invariants after each checked transition
+	// onStep runs after every transition, also while replaying (check=false):
+	// history monitors rebuild their state here and report only when check is set.
+	onStep   func(s *regSys, op Op, out Outcome, check bool) (tainted bool)
+	noOracle bool // the reference model only tracks (follows the implementation); no model comparison
+	sub      string
 }
 
 type c02Case struct {
@@ -190,19 +195,37 @@ func (s *regSys) exec(op Op) (out Outcome) {
 
 func (s *regSys) Apply(op Op, check bool) (tainted bool) {
 	fpBase := fmt.Sprintf("%s/%s/%s", s.prop, s.mode, op.K)
+	sub := s.sub
+	if sub == "" {
+		sub = "history"
+	}
 	if !check {
 		out := s.exec(op)
 		s.model.Advance(s.u, op, out.OK)
 		s.hist = append(s.hist, op)
+		if s.onStep != nil {
+			s.onStep(s, op, out, false)
+		}
 		return false
 	}
 	pred := s.model.Predict(s.u, op)
 	var out Outcome
-	if s.r.Guard("history", fpBase, s.caseOf(&op), func() { out = s.exec(op) }) {
+	if s.r.Guard(sub, fpBase, s.caseOf(&op), func() { out = s.exec(op) }) {
 		return true
 	}
+	if s.noOracle {
+		s.model.Advance(s.u, op, out.OK)
+		s.hist = append(s.hist, op)
+		if s.onStep != nil {
+			s.r.Guard(sub, fpBase+"/monitor", s.caseOf(nil), func() { tainted = s.onStep(s, op, out, true) })
+		}
+		if s.postCheck != nil {
+			s.postCheck(s, op, out)
+		}
+		return tainted
+	}
 	if mism := pred.Check(out); mism != "" {
-		s.r.Violate("history", fpBase+"/"+fpClass(mism), s.caseOf(&op), pred.Why, mism)
+		s.r.Violate(sub, fpBase+"/"+fpClass(mism), s.caseOf(&op), pred.Why, mism)
 		tainted = true
 	}
 	// size of an upload handle must equal the bytes accepted
@@ -214,22 +237,27 @@ func (s *regSys) Apply(op Op, check bool) (tainted bool) {
 	for h, up := range s.model.Uploads {
 		if s.handles[h] != nil && up.State == "open" {
 			if got := s.handles[h].Size(); got != int64(len(up.Buf)) {
-				s.r.Violate("history", fpBase+"/upload-size", s.caseOf(nil), fmt.Sprintf("Size()=%d", len(up.Buf)), fmt.Sprintf("Size()=%d", got))
+				s.r.Violate(sub, fpBase+"/upload-size", s.caseOf(nil), fmt.Sprintf("Size()=%d", len(up.Buf)), fmt.Sprintf("Size()=%d", got))
 				tainted = true
 			}
 		}
 	}
-	if s.r.Guard("history", fpBase+"/sweep", s.caseOf(nil), func() {
+	if s.r.Guard(sub, fpBase+"/sweep", s.caseOf(nil), func() {
 		for _, q := range s.queries {
 			obs := runQuery(s.ctx, s.reg, q)
 			if mism := s.model.CheckObs(s.u, obs); mism != "" {
-				s.r.Violate("history", fmt.Sprintf("%s/%s/after-%s/%s/%s", s.prop, s.mode, op.K, q.K, fpClass(mism)), s.caseOf(nil),
+				s.r.Violate(sub, fmt.Sprintf("%s/%s/after-%s/%s/%s", s.prop, s.mode, op.K, q.K, fpClass(mism)), s.caseOf(nil),
 					"agreement with the reference model", q.String()+": "+mism)
 				tainted = true
 			}
 		}
 	}) {
 		return true
+	}
+	if s.onStep != nil {
+		if s.onStep(s, op, out, true) {
+			tainted = true
+		}
 	}
 	if s.postCheck != nil {
 		s.postCheck(s, op, out)
